@@ -812,6 +812,99 @@ RULES["R81"] = rule_R81
 RULE_DOC["R81"] = rule_R81.__doc__.strip()
 
 
+def rule_R91(src, stats):
+    """match-arm alternative `&Enum::Variant` / `&Enum::Variant(_, ..)` (reference pattern that binds nothing)  ->  the same
+    pattern without `&` (Verus has no reference patterns; against a scrutinee of reference type the default binding modes
+    dereference it, and a pattern without bindings matches the same values either way)"""
+    code = _toks(src)
+    spans = []
+    for i, t in enumerate(code):
+        if t.text != "&" or i == 0 or code[i - 1].text not in ("{", "}", ",", "|"):
+            continue
+        k = i + 1
+        # path  Ident(::Ident)+
+        if code[k].kind != "ident":
+            continue
+        k += 1
+        segs = 1
+        while code[k].text == ":" and code[k + 1].text == ":" and code[k + 2].kind == "ident":
+            k += 3; segs += 1
+        if segs < 2:
+            continue
+        if code[k].text == "(":
+            e = match_close(code, k)
+            if any(x.text not in ("_", ",") for x in code[k + 1:e]):
+                continue
+            k = e + 1
+        if code[k].text == "|" or (code[k].text == "=" and code[k + 1].text == ">"):
+            spans.append((t.start, t.end, "")); stats["R91"] = stats.get("R91", 0) + 1
+    return _replace_spans(src, spans)
+
+
+RULES["R91"] = rule_R91
+RULE_DOC["R91"] = rule_R91.__doc__.strip()
+
+
+def rule_R92(src, stats):
+    """for P in E.iter() { B }  ->  for vx_jN in 0..E.len() { let P = &E[vx_jN]; B }      (E a place path: slice or Vec; P an identifier)
+    for P in E.iter().skip(K) { B }  ->  for vx_jN in K..E.len() { let P = &E[vx_jN]; B }  (empty when K >= E.len(), like Skip)
+    (N = loop ordinal; follow with R1 to get a `while` when B has `continue`; Verus has no `continue` in for-loops and no model of Skip)"""
+    while True:
+        code = _toks(src)
+        hit = False
+        for ordinal, (kw, bopen, bclose) in enumerate(_loops(code), 1):
+            if code[kw].text != "for":
+                continue
+            m = re.match(r"for\s+(\w+)\s+in\s+([\w\.]+?)\s*\.\s*iter\s*\(\s*\)(?:\s*\.\s*skip\s*\(\s*(\w+)\s*\))?\s*$",
+                         src[code[kw].start:code[bopen].start], re.S)
+            if not m:
+                continue
+            p_, e_, k_ = m.groups()
+            src = _replace_spans(src, [(code[kw].start, code[bopen].end,
+                                        "for vx_j%d in %s..%s.len() { let %s = &%s[vx_j%d];" % (ordinal, k_ or "0", e_, p_, e_, ordinal))])
+            stats["R92"] = stats.get("R92", 0) + 1
+            hit = True
+            break
+        if not hit:
+            return src
+
+
+RULES["R92"] = rule_R92
+RULE_DOC["R92"] = rule_R92.__doc__.strip()
+
+
+def rule_R93(text, names, stats):
+    """(`#! use UNIT without=F1,F2`) in the raw text imported from UNIT every top-level `impl .. { .. }` block that declares
+    `fn F` for a listed F is dropped: UNIT assumed F through a hand-written stub, the importing unit proves the real F
+    (listed there with `#! fn`), and the two definitions would clash"""
+    code = _toks(text)
+    spans = []
+    depth = 0
+    i = 0
+    while i < len(code):
+        t = code[i]
+        if t.kind == "punct" and t.text in "([{":
+            depth += 1
+        elif t.kind == "punct" and t.text in ")]}":
+            depth -= 1
+        elif depth == 0 and t.kind == "ident" and t.text == "impl":
+            k = i + 1
+            while code[k].text != "{":
+                k = match_close(code, k) + 1 if code[k].text in "([" else k + 1
+            e = match_close(code, k)
+            inner = [code[j + 1].text for j in range(k, e) if code[j].kind == "ident" and code[j].text == "fn"]
+            if any(n in inner for n in names):
+                spans.append((t.start, code[e].end, "// [R93] stub of %s dropped: the importing unit proves the real function" % ", ".join(n for n in names if n in inner)))
+                stats["R93"] = stats.get("R93", 0) + 1
+            i = e + 1
+            continue
+        i += 1
+    return _replace_spans(text, spans)
+
+
+RULE_DOC["R93"] = rule_R93.__doc__.strip()
+
+
 # --------------------------------------------------------------------------- unit parsing
 
 class FnSpec:
@@ -893,7 +986,7 @@ def parse_unit(path):
             elif w[0] == "specs":
                 cur = ("specs", {"unit": w[1], "names": w[2:]}); unit["parts"].append(cur)
             elif w[0] == "use":
-                cur = ("use", {"unit": w[1]}); unit["parts"].append(cur)
+                cur = ("use", {"unit": w[1], "without": [n for x in w[2:] if x.startswith("without=") for n in x[8:].split(",") if n]}); unit["parts"].append(cur)
             elif w[0] == "fn":
                 rest = s[2:].split(None, 3)
                 optstr = rest[3] if len(rest) > 3 else ""
@@ -1168,6 +1261,7 @@ def build(unit_path, prelude_paths, canary=False):
     for p in prelude_paths:
         emit(open(p).read() + "\n", {"origin": "prelude", "file": p})
     seen = set()   # de-duplication across `#! use` imports: consts / items / fn stubs by name, raw parts by id=
+    drop_stubs = []   # stack of `without=` lists of the `#! use` imports being processed (R93)
 
     def process(unit, unit_path, stub):
         for kind, part in unit["parts"]:
@@ -1193,10 +1287,12 @@ def build(unit_path, prelude_paths, canary=False):
                 sub_path = os.path.join(os.path.dirname(unit_path), part["unit"] + ".vu")
                 sub = parse_unit(sub_path)
                 emit("// ---- contracts imported from unit %s (proved there; bodies replaced by external_body stubs) ----\n" % part["unit"], {"origin": "gen"})
+                drop_stubs.append(part.get("without", []))
                 process(sub, sub_path, True)
+                drop_stubs.pop()
                 emit("// ---- end of unit %s ----\n" % part["unit"], {"origin": "gen"})
             elif kind == "raw":
-                emit(part.get("text", "") + "\n", {"origin": "unit-raw", "file": unit_path, "line": part["line"]})
+                emit((rule_R93(part.get("text", ""), drop_stubs[-1], stats) if stub and drop_stubs and drop_stubs[-1] else part.get("text", "")) + "\n", {"origin": "unit-raw", "file": unit_path, "line": part["line"]})
             elif kind == "consts":
                 src, items = items_of(part["file"])
                 names = part["names"]
